@@ -221,7 +221,9 @@ def run(ck):
     ck.rule = ("3-D crystal pool (named + random systems, 1-2 species, 1-3 atoms) x random supercell matrices (|det| <= %d, "
                "symmetric and symmetry-breaking) x interstitial/solute settings x random occupations (1-3 point defects); per "
                "supercell: every operation of G through the Coq checkers, and pairs related by a random operation + random "
-               "reordering / unrelated with equal defect counts / unrelated with different counts / defect-free; an evaluation = "
+               "reordering / unrelated with equal defect counts / unrelated with different counts / defect-free; plus histories on ONE "
+               "object (defectindices/KrogerVink/str/equivalencemap interleaved with sup *= g, setocc, fillperiodic, reorder, copy) compared "
+               "after every step with a fresh supercell of the same content; an evaluation = "
                "one operation or one pair; distinct = distinct (cell, operation) or (cell, occupations); non-trivial = group of "
                "order > 1 and at least one defect" % ck.n(4, 8))
     ck.trusted += ["harness/c27.py, sclib.py: reading occ/chemorder/indexmap/rot/trans off the objects, scaling rational positions "
@@ -240,7 +242,7 @@ def run(ck):
     jobs = []
     skipped = {"irrational-geometry": 0, "too-large": 0, "construct-failed": 0}
     stats = {"operations_checked": 0, "pairs_related": 0, "pairs_unrelated_same_counts": 0, "pairs_different_counts": 0,
-             "pairs_defect_free": 0, "answers_none": 0, "answers_found": 0, "unrelated_but_equivalent": 0}
+             "pairs_defect_free": 0, "history_steps": 0, "answers_none": 0, "answers_found": 0, "unrelated_but_equivalent": 0}
     cells = 0
     for label, crys, chem in gen.pool(rng, 4 * ncells, dims=(3,), random_frac=0.5, maxatoms=2):
         if cells >= ncells: break
@@ -346,6 +348,73 @@ def run(ck):
             B3, k3 = random_defects(rng, sup, len(kinds) + 1)
             stats["pairs_different_counts"] += 1
             add_pair(A, B3, "different-counts")
+        # ---- C. histories on ONE object: derived views (defectindices, KrogerVink, str, equivalencemap) interleaved with
+        #         in-place operations; after every step everything is compared with a FRESH supercell of the same content
+        for _h in range(ck.n(1, 3)):
+            H, kinds = random_defects(rng, sup, rng.choice([1, 2, 2, 3]))
+            if not kinds: continue
+            target = rng.choice(G) * H
+            target.reorder([rng.sample(range(len(l)), len(l)) for l in target.chemorder])
+            hist = []
+            for step in range(ck.n(8, 16)):
+                r = rng.random()
+                if r < 0.30:
+                    what = rng.choice(["defectindices", "KrogerVink", "str", "equivalencemap"])
+                    hist.append([what])
+                    if what == "defectindices": H.defectindices()
+                    elif what == "KrogerVink": H.KrogerVink()
+                    elif what == "str": str(H)
+                    else: H.equivalencemap(target)
+                elif r < 0.65:
+                    occupied = [i for i in range(N) if H.occ[i] != sup.occ[i]]
+                    movers = [g for g in G if any(g.indexmap[0][i] != i for i in occupied)] or G
+                    g = rng.choice(movers)
+                    hist.append(["imul", list(g.indexmap[0])])
+                    H *= g
+                elif r < 0.78:
+                    i = rng.randrange(N)
+                    sitechem = sup.atomindices[i % sup.N][0]
+                    c = rng.choice([sitechem, -1] + ([sup.crys.Nchem] if sup.Nchem > sup.crys.Nchem else []))
+                    if sitechem in sup.interstitial and c == sitechem and rng.random() < 0.5: c = -1
+                    hist.append(["setocc", i, c]); H.setocc(i, c)
+                elif r < 0.83:
+                    ci = rng.choice([ci for ci in sup.atomindices if ci[0] not in sup.interstitial])
+                    hist.append(["fillperiodic", list(ci), False]); H.fillperiodic(ci, Wyckoff=False)
+                elif r < 0.93:
+                    mp = [rng.sample(range(len(l)), len(l)) for l in H.chemorder]
+                    hist.append(["reorder", mp]); H.reorder(mp)
+                else:
+                    hist.append(["copy"]); H = H.copy()
+                # a fresh object with the same occupation and ordering, built through the public editing interface
+                F = supercell.Supercell(crys, sl, interstitial=inter, Nsolute=ns, NOSYM=True)
+                F.G = sup.G
+                for c_, l in enumerate(H.chemorder):
+                    for i in l: F.setocc(i, c_)
+                stats["history_steps"] += 1
+                rep = dict(cfg=spec, start=None, history=[list(h) for h in hist], state=state(H), target=state(target))
+                if state(F) != state(H):
+                    raise RuntimeError("harness could not rebuild the state of the history object")
+                try:
+                    dH, dF = H.defectindices(), F.defectindices()
+                    kH, kF = H.KrogerVink(), F.KrogerVink()
+                except Exception as e:
+                    violation("c27-history-exception", "%s: derived view raised %r after %s" % (label, e, hist[-1]), rep); break
+                if dH != dF:
+                    violation("c27-history-defectindices", "%s: after %s defectindices() = %s, a fresh supercell with the same occupation gives %s" %
+                              (label, [h[0] for h in hist], {k: sorted(v) for k, v in dH.items()}, {k: sorted(v) for k, v in dF.items()}), rep)
+                if kH != kF:
+                    violation("c27-history-krogervink", "%s: after %s KrogerVink() = %r, fresh: %r" % (label, [h[0] for h in hist], kH, kF), rep)
+                try:
+                    aH, aF = H.equivalencemap(target), F.equivalencemap(target)
+                    if (aH[0] is None) != (aF[0] is None):
+                        violation("c27-history-equivmap", "%s: after %s equivalencemap(other) %s, on a fresh supercell with the same content it %s" %
+                                  (label, [h[0] for h in hist], "finds nothing" if aH[0] is None else "finds an operation",
+                                   "finds nothing" if aF[0] is None else "finds an operation"), rep)
+                except Exception as e:
+                    if not np.array_equal(H.occ, sup.occ) or not isinstance(e, ValueError):
+                        violation("c27-history-exception", "%s: equivalencemap raised %r after %s" % (label, e, hist[-1]), rep)
+                    continue
+                add_pair(H, target, "history")      # soundness / completeness on the live object, also through the Coq checkers
         jobs.append((cc, Gidx, lab, geo, spec))
 
     # ---- run the verified checkers on everything collected ---------------------------------------
